@@ -54,4 +54,31 @@ theorem src_typehint_simple_arms :
 /-- all fifteen arms are there (the chain has not lost one, nor gained one the model does not know) -/
 theorem src_typehint_simple_arms_count : Src.typehintSimpleArms.length = 15 := by decide
 
+/-! ### the signature resolver (`resolve_signature_typehint_default`, signature.py) -/
+
+/-- as `showCtor`, for the validators the strict resolver builds: no coercer -/
+def showCtorSig : V → Option String
+  | .scalar _ .decimal none [] [] [] => some "DecimalValidator(coerce=None)"
+  | .scalar _ .uuid none [] [] [] => some "UUIDValidator(coerce=None)"
+  | .scalar _ .date none [] [] [] => some "DateValidator(coerce=None)"
+  | .scalar _ .datetime none [] [] [] => some "DatetimeValidator(coerce=None)"
+  | .utuple _ (.always 1) [] [] none => some "UniformTupleValidator(always_valid, coerce=None)"
+  | _ => none
+
+/-- the five identity-tested arms of the strict resolver return what `derive .signature` builds … -/
+theorem src_sigresolver_simple_arms :
+    Src.sigResolverSimpleArms.all (fun row => row.1.all (fun n =>
+      match annOfName n with
+      | some a => showCtorSig ((derive .signature a).run 0).1 == some row.2
+      | none => false)) = true ∧ Src.sigResolverSimpleArms.length = 5 := by decide
+
+/-- … and for every other name the base resolver has an arm for, the strict resolver has none of its own: it falls
+    through to `get_typehint_validator_base`, and `derive .signature` is `derive .dflt` there -/
+theorem src_sigresolver_falls_through :
+    Src.typehintSimpleArms.all (fun row => row.1.all (fun n =>
+      Src.sigResolverSimpleArms.any (fun r => r.1.contains n) ||
+        (match annOfName n with
+         | some a => showCtor ((derive .signature a).run 0).1 == some row.2
+         | none => false))) = true := by decide
+
 end Koda
